@@ -233,8 +233,10 @@ def reused_module(make, make_sibling, warm):
     given the right filters through load_state_dict. Anything cached per module / per buffer address during the
     first life must not leak into the second."""
     from pwv import core
-    m = make_sibling()
-    core.libcall(warm, m)       # ordinary use of the library: an exception here is the library's
+    # the first life happens in ordinary (grad-recording) mode whatever context the case itself runs in
+    with torch.inference_mode(False), torch.enable_grad():
+        m = make_sibling()
+        core.libcall(warm, m)       # ordinary use of the library: an exception here is the library's
     fresh = make()
     try:
         m.load_state_dict(fresh.state_dict())
